@@ -69,6 +69,15 @@ def build(fcp, outdir):
     if p.returncode != 0:
         err = [l for l in p.stderr.split("\n") if "error" in l]
         return "compile-error", (err[0] if err else p.stderr[:400])
+    # every generated header must compile (fcp.h first: the other headers rely on its includes)
+    first = ["fcp.h", "dynamic.h", "can_static_schema.h", "can_dynamic_schema.h"]
+    with open(os.path.join(outdir, "all_headers.cpp"), "w") as f:
+        for h in first + sorted(n for n in files if n.endswith(".h") and n not in first):
+            f.write('#include "%s"\n' % h)
+    p = subprocess.run(CXX + ["-fsyntax-only", "-I", ".", "all_headers.cpp"], cwd=outdir, capture_output=True, text=True)
+    if p.returncode != 0:
+        err = [l for l in p.stderr.split("\n") if "error" in l]
+        return "compile-error", "generated header does not compile: " + (err[0] if err else p.stderr[:400])
     # bound the cache
     ents = sorted((os.path.getmtime(os.path.join(CACHE, e)), e) for e in os.listdir(CACHE))
     while len(ents) > 60:
@@ -219,6 +228,9 @@ def parse_tokens(sch, t, toks, p, enum_names=False):
         out = {}
         while p < len(toks) and toks[p] != "}":
             key = toks[p]
+            if key == "__is_method_input":      # marker the rpc input wrappers add to their JSON
+                p += 2
+                continue
             if key not in ft:
                 raise BadShape("unexpected key %s" % key)
             x, p = parse_tokens(sch, ft[key], toks, p + 1, enum_names)
